@@ -29,7 +29,8 @@ ASSUMPTIONS = ["PARTIAL by nature: Tickit's side is proved for every tokenizer m
                "found in a buffer is found, with the same length, in every extension of the buffer) and that nothing is consumed "
                "without a key; both are also tested here, because the model is fed the keys of the WHOLE stream; a reference tokenizer "
                "written in Coq (UTF-8, CSI, SS3, SGR mouse) is proved to satisfy all the hypotheses (C20_reference_tokenizer)",
-               "no inter-byte time-out is forced between chunks (the property's own condition): every scripted gap is below libtermkey's 50 ms wait time; the clock is virtual",
+               "no inter-byte time-out is forced between chunks (the property's own condition): every scripted gap is below libtermkey's 50 ms wait time; the clock is virtual; "
+               "time the application spends inside its own key / mouse handlers (scripted, up to 200 ms per event) does not count as a gap",
                "libtermkey's buffer holds 256 bytes and no single unfinished sequence fills it",
                "held-button record: button numbers 1..30 (libtermkey reports 1..3 for press/drag)"]
 TRUSTED = ["model coq/InputDefs.v hand-written after got_key / get_keys / tickit_term_input_push_bytes of src/term.c (with "
@@ -185,6 +186,28 @@ def gen(tier, seed, info):
         ntimed += 1
     info["timed_cases"] = ntimed
     info["timed_gaps_us"] = GAPS
+    # ---- slow handlers: the application's key / mouse handlers take longer than the wait time
+    #      (the virtual clock advances inside them).  A chunk that holds complete keys AND the
+    #      start of an unfinished sequence, the time-out polled right after it, the rest delivered
+    #      at once: the time spent in the handlers must not be charged to the partial sequence.
+    nslow = 0
+    heads = [b"z", b"\x1b[A", b"zz", MOUSE_SGR[0], b"\xc3\xa9"]
+    tails = [it for it in timed_items if len(it) >= 2]
+    for tt in TERMS:
+        for hd in heads:
+            for tl_ in tails:
+                st = hd + tl_ + b"q"
+                for hus in (60000, 200000):
+                    js = sorted(set([1, len(tl_) - 1, (len(tl_) + 1) // 2]))
+                    for j in js:
+                        for g in (0, 1000, 30000):
+                            streams.append((tt, st, ["%d+%d" % (len(hd) + j, g)], "slow%d" % hus))
+                            nslow += 1
+                    # controls: the cut between the items; byte by byte
+                    streams.append((tt, st, ["%d+0" % len(hd)], "slow%d" % hus))
+                    streams.append((tt, st, ["%d+%d" % (c, 20000) for c in range(1, len(st) + 1)], "slow%d" % hus))
+                    nslow += 2
+    info["slow_handler_cases"] = nslow
     # ---- longer than libtermkey's buffer
     nlong = 60 if tier == "quick" else 2000
     for _ in range(nlong):
@@ -225,7 +248,8 @@ def gen(tier, seed, info):
     tags = {}
     for tt, s, cuts, tag in streams:
         tags[tag] = tags.get(tag, 0) + 1
-        yield "%s%s %s %s %s" % ("!" if tag[0] == "!" else "", tt, h(s), ",".join(map(str, cuts)) or "-", toks[(tt, s)])
+        slow = "@" + tag[4:] if tag.startswith("slow") else ""
+        yield "%s%s%s %s %s %s" % ("!" if tag[0] == "!" else "", tt, slow, h(s), ",".join(map(str, cuts)) or "-", toks[(tt, s)])
     info["cases_by_kind"] = tags
 
 
